@@ -41,7 +41,7 @@ func runJSONSiblings(p *Prog, r *Report) {
 				return true
 			}
 			f := calleeOf(info, call)
-			if f == nil || f.Name() != "rangesEqual" {
+			if f == nil || fname(f) != "rangesEqual" {
 				return true
 			}
 			nCmp++
